@@ -80,7 +80,7 @@ func checkC01(t *Trial, ctx *Ctx) *Failure {
 	sc := *parseSamText(t.Case.Files["sam"])
 	want, ok := tomaModel(&sc, t.Case.Opts)
 	if !ok {
-		ctx.Discard("case outside the domain (query without aligned base or CIGAR past the reference end)")
+		ctx.Discard("case outside the domain (a CIGAR runs past the reference end)")
 		return nil
 	}
 	// reach probes on the input
